@@ -347,13 +347,17 @@ class PersistenceImager(TransformerMixin):
         self._pixel_size = pixel_size
         self._birth_range = birth_range
         self._pers_range = pers_range
-        self._width = birth_range[1] - birth_range[0]
-        self._height = pers_range[1] - pers_range[0]
         self._resolution = (
-            int(self._width / self._pixel_size),
-            int(self._height / self._pixel_size),
+            self._n_pixels(birth_range[1] - birth_range[0]),
+            self._n_pixels(pers_range[1] - pers_range[0]),
         )
+        self._width = self._resolution[0] * self._pixel_size
+        self._height = self._resolution[1] * self._pixel_size
         self._create_mesh()
+
+    def _n_pixels(self, extent):
+        # number of square pixels of the current size needed to cover an extent
+        return int(np.ceil(extent / self._pixel_size))
 
     @property
     def width(self):
@@ -406,18 +410,12 @@ class PersistenceImager(TransformerMixin):
     @pixel_size.setter
     def pixel_size(self, val):
         self._pixel_size = val
-        self._width = (
-            int(np.ceil((self.birth_range[1] - self.birth_range[0]) / self.pixel_size))
-            * self.pixel_size
-        )
-        self._height = (
-            int(np.ceil((self.pers_range[1] - self.pers_range[0]) / self.pixel_size))
-            * self.pixel_size
-        )
         self._resolution = (
-            int(self.width / self.pixel_size),
-            int(self.height / self.pixel_size),
+            self._n_pixels(self.birth_range[1] - self.birth_range[0]),
+            self._n_pixels(self.pers_range[1] - self.pers_range[0]),
         )
+        self._width = self._resolution[0] * self.pixel_size
+        self._height = self._resolution[1] * self.pixel_size
         self._create_mesh()
 
     @property
@@ -435,14 +433,11 @@ class PersistenceImager(TransformerMixin):
     @birth_range.setter
     def birth_range(self, val):
         self._birth_range = val
-        self._width = (
-            int(np.ceil((self.birth_range[1] - self.birth_range[0]) / self.pixel_size))
-            * self._pixel_size
-        )
         self._resolution = (
-            int(self.width / self.pixel_size),
-            int(self.height / self.pixel_size),
+            self._n_pixels(self.birth_range[1] - self.birth_range[0]),
+            self._resolution[1],
         )
+        self._width = self._resolution[0] * self._pixel_size
         self._create_mesh()
 
     @property
@@ -460,14 +455,11 @@ class PersistenceImager(TransformerMixin):
     @pers_range.setter
     def pers_range(self, val):
         self._pers_range = val
-        self._height = (
-            int(np.ceil((self.pers_range[1] - self.pers_range[0]) / self.pixel_size))
-            * self._pixel_size
-        )
         self._resolution = (
-            int(self.width / self.pixel_size),
-            int(self.height / self.pixel_size),
+            self._resolution[0],
+            self._n_pixels(self.pers_range[1] - self.pers_range[0]),
         )
+        self._height = self._resolution[1] * self._pixel_size
         self._create_mesh()
 
     def __repr__(self):
